@@ -2,3 +2,5 @@ import AmaranthVerif.Model.Shape
 import AmaranthVerif.Model.Expr
 import AmaranthVerif.Spec.Denote
 import AmaranthVerif.Properties.C01
+import AmaranthVerif.Properties.C05
+import AmaranthVerif.Properties.C17
